@@ -48,17 +48,17 @@ RADICALS = [(1, 0, -2), (2, 3, 0), (1, 6, 0), (1, 1, -1), (1, 2, 0), (4, 5, 0), 
 CFG = {
     "quick": dict(TermKinds=_kinds(U_COEFS, OTHERS_QUICK), MaxTerms=3, MaxU=2, Forms={"expr", "eqL", "eqU", "eqO", "eqS", "eqSS"},
                   ApplyFns={"dota", "plusu", "norm"}, ApplyMaxTerms=2,
-                  NonVecKinds={"nu", "dua", "x", "xdab"}, ScalK2={"zero", "one"}, ScalK1={"zero", "one", "y", "yinv"},
-                  ScalK0={"one", "y", "my2", "m1", "dab"}, RadicalEqs=set(RADICALS[:4]), Systems=set(SYSTEMS[:3]),
+                  NonVecKinds={"nu", "dua", "x", "xdab", "divscaled", "divscaledu", "divsum"}, ScalK2={"zero", "one"}, ScalK1={"zero", "one", "y", "yinv"},
+                  ScalK0={"one", "y", "my2", "m1", "dab"}, RadicalEqs=set(RADICALS[:4]), Systems=set(SYSTEMS[:3]), PowerEqs={"prodsqrt"},
                   ScalApplyFns={"twice", "lin", "sq"}, Assigns=vx.ASSIGNS),
     "thorough": dict(TermKinds=_kinds(U_COEFS, OTHERS_MORE), MaxTerms=4, MaxU=2, Forms={"expr", "eqL", "eqU", "eqO", "eqS", "eqSS"},
                      ApplyFns={"dota", "twice", "plusu", "norm", "crossb"}, ApplyMaxTerms=2,
-                     NonVecKinds={"nu", "dua", "x", "xdab"}, ScalK2={"zero", "one", "y"},
+                     NonVecKinds={"nu", "dua", "x", "xdab", "divscaled", "divscaledu", "divsum"}, ScalK2={"zero", "one", "y"},
                      ScalK1={"zero", "one", "y", "yinv", "dab", "two"},
-                     ScalK0={"one", "y", "my2", "m1", "dab", "duu", "zero"}, RadicalEqs=set(RADICALS), Systems=set(SYSTEMS),
+                     ScalK0={"one", "y", "my2", "m1", "dab", "duu", "zero"}, RadicalEqs=set(RADICALS), Systems=set(SYSTEMS), PowerEqs={"prodsqrt"},
                      ScalApplyFns={"twice", "lin", "sq"}, Assigns=vx.ASSIGNS),
 }
-INVARIANTS = ["TypeOK", "MoveNegates", "Equivalent", "Solution", "RefusalRule", "RadicalsMeaningful", "SystemsMeaningful"]
+INVARIANTS = ["TypeOK", "MoveNegates", "Equivalent", "Solution", "RefusalRule", "RadicalsMeaningful", "SystemsMeaningful", "PowersMeaningful"]
 ORDERS = {"quick": [(0, 1, 2, 3), (2, 1, 0, 3)], "thorough": [(0, 1, 2, 3), (2, 1, 0, 3), (1, 2, 0, 3)]}
 SHARDS = {"quick": 2, "thorough": 8}
 LIMIT_S = 20
@@ -98,6 +98,10 @@ def build_equation(shape, leaves):
             return sp.Eq(leaves["vec"][1], expr, evaluate=False)
         return expr if form == "expr" else sp.Eq(expr, 0, evaluate=False)
     x = leaves["scal"][1]
+    if shape["mode"] == "power":
+        y, t = leaves["scal"][2], leaves["scal"][3]
+        lhs = x / sp.sqrt(y) if shape["ts"][0] == "prodsqrt" else x * sp.sqrt(y)
+        return lhs - sp.sqrt(t) if form == "expr" else sp.Eq(lhs, sp.sqrt(t), evaluate=False)
     if shape["mode"] == "system":
         sys_, _ = shape["ts"]
         y, t = leaves["scal"][2], leaves["scal"][3]
@@ -145,7 +149,7 @@ def replay_one(job):  # pylint: disable=too-many-locals,too-many-branches,too-ma
     eqn = build_equation(shape, leaves)
     op = shape["op"]
     rec = dict(op={"solve": "solve", "apply": "apply", "solve_scalar": "scalar", "solve_radical": "radical",
-                   "solve_system": "system"}[op], ts=shape["ts"],
+                   "solve_system": "system", "solve_power": "power"}[op], ts=shape["ts"],
                nonvec=1 if shape["mode"] == "nonvec" else 0, reduce=1 if shape["reduce"] else 0, fn=shape["fn"],
                outcome="eq", lhs=[], rhs=[])
     try:
@@ -217,10 +221,14 @@ def replay_one(job):  # pylint: disable=too-many-locals,too-many-branches,too-ma
         if bad:
             return job, "violation", "; ".join(bad[:2]), [rec], str(eqn)
         return job, "ok", str(res), [rec], str(eqn)
-    if op in ("solve_scalar", "solve_radical"):
+    if op in ("solve_scalar", "solve_radical", "solve_power"):
         recs, bad, und = [], [], None
-        k2, k1, k0 = (vx.build(p, leaves, True) for p in shape["ts"])
-        f = k2 * x**2 + k1 * x + k0 if op == "solve_scalar" else sp.sqrt(k2 * x + k1) - x - k0
+        if op == "solve_power":
+            y, t = leaves["scal"][2], leaves["scal"][3]
+            f = (x / sp.sqrt(y) if shape["ts"][0] == "prodsqrt" else x * sp.sqrt(y)) - sp.sqrt(t)
+        else:
+            k2, k1, k0 = (vx.build(p, leaves, True) for p in shape["ts"])
+            f = k2 * x**2 + k1 * x + k0 if op == "solve_scalar" else sp.sqrt(k2 * x + k1) - x - k0
         if not isinstance(res, (list, tuple)):
             return job, "violation", f"solve_for_scalar returned {type(res).__name__}, not a list of equations", [], str(eqn)
         for eq in res:
@@ -336,6 +344,8 @@ def shape_str(shape) -> str:
                           for cs, v, side in shape["ts"])
     elif shape["mode"] == "system":
         body = f"coefficients {shape['ts'][0]} unknowns requested {['xy'[k - 1] for k in shape['ts'][1]]}"
+    elif shape["mode"] == "power":
+        body = {"prodsqrt": "x/sqrt(y) = sqrt(t)", "quotsqrt": "x*sqrt(y) = sqrt(t)"}[shape["ts"][0]]
     else:
         body = " ; ".join(vx.prog_str(p, NAMES) for p in shape["ts"])
     tail = f" reduce={shape['reduce']}" if shape["op"] == "solve" else f" fn={shape['fn']}" if shape["op"] == "apply" else ""
@@ -430,7 +440,7 @@ def main() -> int:
         run.coverage["model_expectations"] = expected
         jobs = []
         for shape in shapes:
-            used = [["vec", 1], ["vec", 2], ["vec", 3]] if shape["mode"] not in ("scalar", "radical", "system") else [["vec", 1]]
+            used = [["vec", 1], ["vec", 2], ["vec", 3]] if shape["mode"] not in ("scalar", "radical", "system", "power") else [["vec", 1]]
             for order in vx.orders_for(used, orders):
                 jobs.append(dict(shape=shape, order=order))
         run.coverage["calls"] = len(jobs)
